@@ -4,24 +4,34 @@ use crate::{
         evaluate_exponent, evaluate_logical_and, evaluate_logical_or, AddOrSubtractOp, EqualityOp,
         MultiplyOrDivideOp, UnaryOp,
     },
-    program::Program,
+    program::{Program, NESTING_LIMIT},
     symbol::Symbol,
     value::Value,
     variables::Variables,
-    Interpreter, InterpreterError, SyntaxError, Token, TracedInterpreterError,
+    Interpreter, InterpreterError, OutOfMemoryError, SyntaxError, Token, TracedInterpreterError,
 };
 
 pub struct ExpressionEvaluator<'a> {
     interpreter: &'a mut Interpreter,
+    depth: usize,
 }
 
 impl<'a> ExpressionEvaluator<'a> {
     pub fn new(interpreter: &'a mut Interpreter) -> Self {
-        ExpressionEvaluator { interpreter }
+        ExpressionEvaluator {
+            interpreter,
+            depth: 0,
+        }
     }
 
     pub fn evaluate_expression(&mut self) -> Result<Value, TracedInterpreterError> {
-        self.evaluate_logical_or_expression()
+        if self.depth == NESTING_LIMIT {
+            return Err(OutOfMemoryError::StackOverflow.into());
+        }
+        self.depth += 1;
+        let result = self.evaluate_logical_or_expression();
+        self.depth -= 1;
+        result
     }
 
     pub fn evaluate_array_index(&mut self) -> Result<Vec<usize>, TracedInterpreterError> {
